@@ -46,8 +46,9 @@ def groupBytes (n : Nat) : Nat → Bytes → Option (List Bytes)
   | _, [] => some []
   | 0, _ => none
   | fuel+1, l =>
-    if l.length < n then none
-    else (groupBytes n fuel (l.drop n)).map (l.take n :: ·)
+    let g := l.take n
+    if g.length < n then none
+    else (groupBytes n fuel (l.drop n)).map (g :: ·)
 
 def natOfBytes (bs : Bytes) : Nat := bs.foldl (fun acc b => acc * 256 + b.toNat) 0
 
